@@ -98,6 +98,16 @@ class _Healthy:
         return None
 
 
+class _UnknownInstance:
+    state = 'unknown'
+
+    def __init__(self, name):
+        self.name = name
+
+    def adjust_free_cores_in_memory(self, delta):
+        pass
+
+
 def opt(tok: str) -> Optional[int]:
     return None if tok == 'N' else int(tok)
 
@@ -307,8 +317,20 @@ class World:
     # driver / worker messages ----------------------------------------------------------------------------
     async def op_schedule(self, b, j, a, i):
         nm = f'inst{i}'
-        rv = await self._call('driver/job.py', 'CALL schedule_job', (int(b), int(j), f'att{a}', nm))
         inst = self.instances.get(nm)
+        # PoolScheduler.schedule_loop_body reserves the cores in memory before it calls driver.job.schedule_job, and gives them
+        # back when that raises; schedule_job applies the procedure's delta_cores_mcpu afterwards
+        rows = self.query('SELECT cores_mcpu FROM jobs WHERE batch_id = %s AND job_id = %s', (int(b), int(j)))
+        reserved = 0
+        if inst is not None and inst.inst_coll.is_pool and inst.state == 'active' and rows:
+            reserved = rows[0]['cores_mcpu']
+            inst.adjust_free_cores_in_memory(-reserved)
+        try:
+            rv = await self._call('driver/job.py', 'CALL schedule_job', (int(b), int(j), f'att{a}', nm))
+        except Exception:
+            if reserved and inst.state == 'active':
+                inst.adjust_free_cores_in_memory(reserved)
+            raise
         if inst is not None and rv['delta_cores_mcpu'] != 0 and inst.state == 'active':     # as driver.job.schedule_job does
             inst.adjust_free_cores_in_memory(rv['delta_cores_mcpu'])
         return rv['rc']
@@ -316,7 +338,9 @@ class World:
     def _inst(self, i):
         inst = self.instances.get(f'inst{i}')
         if inst is None:
-            raise MachineryFailure(f'worker message names instance inst{i} which was never created (generator restriction)')
+            # a worker message naming an instance that was never created (the HTTP layer of the driver rejects those; the
+            # procedure is still exercised): only .name is meaningful
+            return _UnknownInstance(f'inst{i}')
         return inst
 
     async def op_creating(self, b, j, a, i, ts, date):
